@@ -290,6 +290,35 @@ fn extra(pre: &World, post: &mut World, t: &TraceOp, info: &StepInfo, stats: &mu
             return vec![e];
         }
     }
+    // ---- clause 1 through the Write-based entry point and a sink that writes short: the text a
+    // consumer receives must be the text whose names were just resolved
+    if let Some(r) = roots.first() {
+        let h = post.h(*r);
+        if let Ok(Ok(text)) = real_call(|| post.xot.to_string(h)) {
+            use crate::props::c16::{SimSink, SinkFault};
+            let sched: Vec<SinkFault> = (0..4096u32)
+                .map(|i| match crate::rng::mix(t.sid as u64, i as u64, 5) % 5 {
+                    0 => SinkFault::Short(1 + (i as usize % 3)),
+                    1 => SinkFault::Interrupted,
+                    _ => SinkFault::Full,
+                })
+                .collect();
+            let mut sink = SimSink::with(sched);
+            let res = real_call(|| post.xot.write(h, &mut sink));
+            stats.inc("fault/c10_write_through_short_writing_sink");
+            if !matches!(res, Ok(Ok(()))) || sink.accepted != text.as_bytes() {
+                return vec![v(
+                    "name-meaning-changed",
+                    format!(
+                        "write() through a sink with short writes delivered {:?} ({:?}), to_string gives {:?}",
+                        String::from_utf8_lossy(&sink.accepted),
+                        res.map(|r| r.map_err(|e| format!("{:?}", e))).map_err(|_| "panic"),
+                        text
+                    ),
+                )];
+            }
+        }
+    }
     // ---- clause 1 also holds for the serialisation of a subtree in place: a few nested elements
     let nested: Vec<Lid> = post
         .model
